@@ -49,3 +49,54 @@ func VerifC10Name() {
 	}
 	vapi.Reach("name-end")
 }
+
+// VerifC10Conc: two direct-mode handshakes at the same time (a session with NumConn > 1 dials its connections in
+// parallel): each connection's first flight is one well-formed handshake record holding exactly the ClientHello
+// built for that connection, whatever buffers the record composition recycles.
+func VerifC10Conc() {
+	vapi.RandZero(true)
+	vapi.SetPreemptBound(vapi.Param("preempt", 1))
+	vapi.PoolMode(vapi.Pick("pool", 2)) // recycled objects: last returned / fresh
+	var built [][]byte
+	vapi.Redirect("github.com/cbeuw/Cloak/internal/client.buildClientHello", func(b browser, f clientHelloFields) ([]byte, error) {
+		h := append([]byte{byte(len(f.serverName))}, []byte(f.serverName)...)
+		h = append(h, f.random...)
+		h = append(h, f.sessionId...)
+		built = append(built, h)
+		return h, nil
+	})
+	var pub, spv [32]byte
+	copy(spv[:], vapi.Bytes("staticPv", 32))
+	curve25519.ScalarBaseMult(&pub, &spv)
+	names := []string{"a.com", "a-much-longer-name.example.org"}
+	conns := make([]*vconn.Conn, 2)
+	for i := 0; i < 2; i++ {
+		i := i
+		cc, _ := vconn.Pipe(false)
+		conns[i] = cc
+		auth := AuthInfo{UID: vapi.Bytes("uid", 16), SessionId: 1, ProxyMethod: "shadowsocks", ServerPubKey: &pub, MockDomain: names[i],
+			WorldState: common.WorldState{Rand: &c06Tape{name: "ephPriv"}, Now: func() time.Time { return time.Unix(1700000000, 0) }}}
+		go func() { (&DirectTLS{browser: chrome}).Handshake(cc, auth) }()
+	}
+	vapi.Quiesce()
+	for i := 0; i < 2; i++ {
+		vapi.Assert(len(conns[i].Writes) == 1, "C10: the first flight is a single write")
+		if len(conns[i].Writes) != 1 {
+			continue
+		}
+		w := conns[i].Writes[0]
+		vapi.Assert(len(w) >= 6 && w[0] == 0x16 && w[1] == 3 && int(w[3])<<8|int(w[4]) == len(w)-5, "C10: the first flight is a single handshake record whose length field matches the bytes sent")
+		if len(w) >= 6 {
+			nl := int(w[5])
+			vapi.Assert(6+nl <= len(w) && string(w[6:6+nl]) == names[i], "C10: the ClientHello on a connection carries that connection's server name")
+			mine := false
+			for _, h := range built {
+				if len(h) == len(w)-5 && vapi.BytesEq(h, w[5:]) {
+					mine = true
+				}
+			}
+			vapi.Assert(mine, "C10: the record holds exactly one of the ClientHellos that were built, unaltered")
+		}
+	}
+	vapi.Reach("c10conc-end")
+}
